@@ -221,7 +221,7 @@ namespace c16
 
     Fe(const Config& gg, bool ff, std::ostream& oo) : g(gg), full(ff), o(oo), mesh(make_mesh(gg)), trafo(mesh) {}
 
-    void show_mesh()
+    static void show_mesh_of(std::ostream& o, const MeshType& mesh)
     {
       const auto& vtx = mesh.get_vertex_set();
       const Index nv = vtx.get_num_vertices();
@@ -232,6 +232,8 @@ namespace c16
       o << " " << nc << " " << idx.num_indices;
       for(Index c = 0; c < nc; ++c) for(int j = 0; j < idx.num_indices; ++j) o << " " << idx[c][j];
     }
+
+    void show_mesh() { show_mesh_of(o, mesh); }
 
     template<typename Op_, typename TestSpace_, typename TrialSpace_>
     void run_matrix2(Op_& op)
